@@ -393,7 +393,12 @@ struct Gen
         c[static_cast<std::size_t>(f.coff + 1)] = z[1];
       } else {  // CONF: r * (sin, cos)
         const double sg  = r.sign();
-        const double rad = s == 0 ? 1.0 : std::exp(r.uni(-1, 1));
+        // modulus: 1 at the identity stratum, else e^[-1,1]; every fourth one within 1e-12..1e-6 of 1 but not 1 (a "unit
+        // modulus" shortcut keyed on |z|^2 - 1 shows only there)
+        double rad = s == 0 ? 1.0 : std::exp(r.uni(-1, 1));
+#ifdef VH_NEAR_UNIT_C1   // only the Lie family (harness/lie.cpp) so far: the other families keep their sample streams
+        if (s != 0 && r.idx(4) == 0) rad = 1.0 + r.sign() * r.loguni(1e-12, 1e-6);
+#endif
         c[static_cast<std::size_t>(f.coff)]     = s == 0 ? 0.0 : rad * sg * std::sin(th);
         c[static_cast<std::size_t>(f.coff + 1)] = s == 0 ? 1.0 : rad * std::cos(th);
       }
